@@ -16,7 +16,7 @@ import (
 
 var jumpLen = zz.JumpLen()
 
-var patchTargets = []hwd.Target{hwd.TF0, hwd.TF1, hwd.TM, hwd.TLm, hwd.TG, hwd.TG2own, hwd.TG2hw}
+var patchTargets = []hwd.Target{hwd.TF0, hwd.TF1, hwd.TM, hwd.TLm, hwd.TG, hwd.TG2own, hwd.TG2hw, hwd.TLoop}
 
 func alphabet(thorough bool) []hwd.Op {
 	var a []hwd.Op
@@ -33,6 +33,7 @@ func alphabet(thorough bool) []hwd.Op {
 		add(1, hwd.TF0, hwd.KApplyA, hwd.KReturn, hwd.KCancel)
 		add(1, hwd.TF1, hwd.KApplyA, hwd.KApplyO, hwd.KCancel) // a second function with its own origin placeholder
 		add(0, hwd.TG2own, hwd.KApplyA, hwd.KCancel) // unexported function by name; own.g2 or, after Pkg, hw.g2
+		add(0, hwd.TLoop, hwd.KApplyA, hwd.KApplyORefused) // a plain mock works, an apply with an origin placeholder must be refused
 		a = append(a, hwd.Op{B: 0, K: hwd.KPkg})
 		a = append(a, hwd.Op{B: 0, T: hwd.TF0, K: hwd.KApplyA, Kept: true}, hwd.Op{B: 0, T: hwd.TM, K: hwd.KApplyA, Kept: true})
 		a = append(a, hwd.Op{B: 0, K: hwd.KReset}, hwd.Op{B: 1, K: hwd.KReset})
@@ -47,6 +48,7 @@ func alphabet(thorough bool) []hwd.Op {
 	add(0, hwd.TLm, hwd.KApplyA, hwd.KReturn, hwd.KCancel)
 	add(1, hwd.TF1, hwd.KApplyA, hwd.KApplyO, hwd.KCancel)
 	add(0, hwd.TG2own, hwd.KApplyA, hwd.KReturn, hwd.KCancel)
+	add(0, hwd.TLoop, hwd.KApplyA, hwd.KCancel, hwd.KApplyORefused)
 	a = append(a, hwd.Op{B: 0, K: hwd.KPkg})
 	a = append(a, hwd.Op{B: 0, T: hwd.TF0, K: hwd.KApplyA, Kept: true}, hwd.Op{B: 0, T: hwd.TM, K: hwd.KApplyA, Kept: true}, hwd.Op{B: 1, T: hwd.TF0, K: hwd.KApplyA, Kept: true})
 	return a
